@@ -110,11 +110,14 @@ def pt_limbs(s):
     return [limbs13(x), limbs13(y)]
 
 # ------------------------------------------------------------------ processes
-def build(cfg, outdir):
-    exe = os.path.join(outdir, "ec_" + cfg_name(cfg))
-    flags = ["-fsanitize=address,undefined", "-fsanitize-recover=undefined", "-Wno-incompatible-pointer-types",
-             "-Wno-implicit-function-declaration"]
-    common.cc([DRV], exe, compiler="clang", opt="-O1", defs=cfg_defs(cfg), flags=flags, hooks=False, san=None, timeout=300)
+def build(cfg, outdir, kind="asan"):
+    """kind 'fast': -O2 without sanitizers (runs the whole corpus); 'asan': -O1 ASan+UBSan (runs a sample of it, so
+    that memory corruption inside a multiplier is reported where it happens instead of as a wrong point later)"""
+    exe = os.path.join(outdir, "ec_%s_%s" % (kind, cfg_name(cfg)))
+    flags = ["-Wno-incompatible-pointer-types", "-Wno-implicit-function-declaration"]
+    if kind == "asan": flags += ["-fsanitize=address,undefined", "-fsanitize-recover=undefined"]
+    common.cc([DRV], exe, compiler="clang", opt="-O1" if kind == "asan" else "-O2", defs=cfg_defs(cfg), flags=flags,
+              hooks=False, san=None, timeout=300)
     return exe
 
 ENV = {"ASAN_OPTIONS": "detect_leaks=0:abort_on_error=0:detect_stack_use_after_return=0:allocator_may_return_null=1",
@@ -198,6 +201,7 @@ def generate_corpus(ctx, rng):
     def run(j):
         mod, nm, cfgtext = j
         r = tlc_job(mod, cfgtext, nm)
+        ctx.log("TLC %s/%s: %d states, %.0fs" % (mod, nm, r.distinct, r.wall))
         return j, r
     r0 = tlc_job("EcCurvesCount", "", "assume")          # ASSUMEs of EcGroup, EcCurves, EcCurvesCount
     if r0.rc != 0:
@@ -227,88 +231,78 @@ def scalar_class(ks):
     return "zero-scalar" if any(k == 0 for k in ks) else "generic"
 
 def make_corpus(ctx, cases, rng):
-    """rows -> protocol lines.  cap D everywhere; a seeded subset of rows is repeated with cap M"""
+    """rows of TLC -> protocol lines (identical for every build).  cap D for every row; a seeded share of the rows is
+    repeated with cap M.  meta['curve'] / meta['exc'] let run_build select rows per build."""
     C = Corpus()
-    def caps():                                   # 'D' always, 'M' for ~1/6 of the rows (all in thorough)
-        return "DM" if (not ctx.quick or rng.random() < 0.17) else "D"
+    mshare = 0.12 if ctx.quick else 0.25
+    def caps(): return "DM" if rng.random() < mshare else "D"
+    hexs = lambda ks: " ".join("%x" % k for k in ks)
     for (mod, nm), cs in sorted(cases.items()):
-        for c in cs:
-            cv = c["curve"]; C.curves[cv["name"]] = cv
+        for c in cs: C.curves[c["curve"]["name"]] = c["curve"]
         names = [nm] + [a for a, b in ALIAS.items() if b == nm]
         for c in cs:
+            cv = c["curve"]; G = [cv["gx"], cv["gy"]]
             for name in names:
+                alias = name != nm
                 if mod == "EcGenPairs":
-                    P = c["P"]; Q = c["Q"]
+                    P = c["P"]; Q = c["Q"]; ks = list(range(len(c["mul"]))); qs = " ".join(pt(q) for q in Q)
+                    exc = (not P) or P[1] == 0 or c["idx"] <= 3
                     for cap in caps():
-                        C.add("add %s %s %s %s" % (name, cap, pt(P), " ".join(pt(q) for q in Q)), [pt(r) for r in c["add"]],
-                              op="add", curve=name, cap=cap, P=P, args=Q)
-                        C.add("sub %s %s %s %s" % (name, cap, pt(P), " ".join(pt(q) for q in Q)), [pt(r) for r in c["sub"]],
-                              op="sub", curve=name, cap=cap, P=P, args=Q)
-                        ks = list(range(len(c["mul"])))
-                        C.add("mul %s %s %s %s" % (name, cap, pt(P), " ".join("%x" % k for k in ks)), [pt(r) for r in c["mul"]],
-                              op="mul", curve=name, cap=cap, P=P, args=ks)
-                    C.add("dbl %s D %s" % (name, pt(P)), [pt(c["dbl"])], op="dbl", curve=name, cap="D", P=P, args=[P])
+                        C.add("add %s %s %s %s" % (name, cap, pt(P), qs), [pt(r) for r in c["add"]],
+                              op="add", curve=name, cap=cap, P=P, args=Q, exc=exc)
+                        C.add("sub %s %s %s %s" % (name, cap, pt(P), qs), [pt(r) for r in c["sub"]],
+                              op="sub", curve=name, cap=cap, P=P, args=Q, exc=exc)
+                        C.add("mul %s %s %s %s" % (name, cap, pt(P), hexs(ks)), [pt(r) for r in c["mul"]],
+                              op="mul", curve=name, cap=cap, P=P, args=ks, exc=exc)
+                    C.add("dbl %s D %s" % (name, pt(P)), [pt(c["dbl"])], op="dbl", curve=name, cap="D", P=P, args=[P], exc=exc)
                     for j, r in enumerate(c["dbln"]):
                         for kind in "ap":
                             C.add("dbln %s D %s %d %s" % (name, kind, j + 1, pt(P)), [pt(r)], op="dbln_" + kind, curve=name,
-                                  cap="D", P=P, args=[j + 1])
-                    if c["idx"] == 2 or c["P"] == [cv["gx"], cv["gy"]]:
-                        if c["P"] == [cv["gx"], cv["gy"]]:
-                            ks = list(range(len(c["mul"])))
-                            for cap in "DM":
-                                C.add("mulbp %s %s %s" % (name, cap, " ".join("%x" % k for k in ks)), [pt(r) for r in c["mul"]],
-                                      op="mulbp", curve=name, cap=cap, P=P, args=ks)
+                                  cap="D", P=P, args=[j + 1], exc=exc)
+                    if P == G:
+                        for cap in "DM":
+                            C.add("mulbp %s %s %s" % (name, cap, hexs(ks)), [pt(r) for r in c["mul"]],
+                                  op="mulbp", curve=name, cap=cap, P=P, args=ks, exc=True)
                 elif mod == "EcGenTwin":
+                    if alias: continue
                     P, Q, l = c["P"], c["Q"], c["l"]; ks = list(range(len(c["row"]))); exp = [pt(r) for r in c["row"]]
+                    exc = l in (0, 1, cv["n"] - 1, cv["n"]) or not Q
                     for cap in caps():
                         if c["bp"]:
-                            C.add("twinbp %s %s %s %x %s" % (name, cap, pt(Q), l, " ".join("%x" % k for k in ks)), exp,
-                                  op="twinbp", curve=name, cap=cap, P=P, Q=Q, l=l, args=ks)
-                        # general entry point: row over k means one call per k with fixed (Q, l)
-                        if (not c["bp"]) or l % 16 == 0 or not ctx.quick:
-                            for k in (ks if not c["bp"] else ks[::1]):
-                                pass
-                    if (not c["bp"]) or l % 8 == 0 or not ctx.quick:
-                        # twin <name> <cap> <P> <k> <Q> <l>...  has the row over l; here the row is over k -> one line per k
-                        # (kept affordable: all k for non-base P, a stride of l for P = G)
-                        step = 1 if not c["bp"] else (5 if ctx.quick else 1)
-                        for k in ks[::step]:
-                            C.add("twin %s D %s %x %s %x" % (name, pt(P), k, pt(Q), l), [exp[k]],
-                                  op="twin", curve=name, cap="D", P=P, Q=Q, l=l, args=[k])
+                            C.add("twinbp %s %s %s %x %s" % (name, cap, pt(Q), l, hexs(ks)), exp,
+                                  op="twinbp", curve=name, cap=cap, P=P, Q=Q, l=l, args=ks, exc=exc)
+                    if (not c["bp"]) or l % 4 == 0 or exc:
+                        C.add("twin %s D %s %s %x %s" % (name, pt(P), pt(Q), l, hexs(ks)), exp,
+                              op="twin", curve=name, cap="D", P=P, Q=Q, l=l, args=ks, exc=exc)
                 elif mod == "EcGenWalk":
                     pts = c["pts"]; k0 = c["k0"]; B = c["base"]; ks = [k0 + t for t in range(len(pts))]
-                    exp = [pt(r) for r in pts]
+                    exp = [pt(r) for r in pts]; n = cv["n"]
+                    exc = k0 == 0 or k0 + len(pts) > n
                     if c["s"] == 1:
                         for cap in caps():
-                            C.add("mulbp %s %s %s" % (name, cap, " ".join("%x" % k for k in ks)), exp,
-                                  op="mulbp", curve=name, cap=cap, P=B, args=ks)
+                            C.add("mulbp %s %s %s" % (name, cap, hexs(ks)), exp, op="mulbp", curve=name, cap=cap, P=B, args=ks, exc=exc)
                     for cap in caps():
-                        C.add("mul %s %s %s %s" % (name, cap, pt(B), " ".join("%x" % k for k in ks)), exp,
-                              op="mul", curve=name, cap=cap, P=B, args=ks)
+                        C.add("mul %s %s %s %s" % (name, cap, pt(B), hexs(ks)), exp, op="mul", curve=name, cap=cap, P=B, args=ks, exc=exc)
                     if c["sel"]:
-                        n = cv["n"]
-                        G = [cv["gx"], cv["gy"]]
                         C.add("dbl %s D %s" % (name, " ".join(exp)), [pt(r) for r in c["dbl"]], op="dbl", curve=name, cap="D",
-                              P=None, args=pts)
-                        # P + G is the next point of the walk, P - G the previous one (values emitted by TLC)
+                              P=None, args=pts, exc=exc)
+                        # P + G is the next point of the walk, P - G the previous one; -P, 2P: values emitted by TLC
                         for t in range(1, len(pts) - 1):
-                            if t % 4 and ctx.quick: continue
-                            P = pts[t]
-                            C.add("add %s D %s %s %s %s %s" % (name, pt(P), pt(G), pt(P), pt(c["neg"][t]), "inf"),
-                                  [exp[t + 1], pt(c["dbl"][t]), "inf", pt(P)], op="add", curve=name, cap="D", P=P,
-                                  args=[G, P, c["neg"][t], []])
-                            C.add("sub %s D %s %s %s %s %s" % (name, pt(P), pt(G), pt(P), pt(c["neg"][t]), "inf"),
-                                  [exp[t - 1], "inf", pt(c["dbl"][t]), pt(P)], op="sub", curve=name, cap="D", P=P,
-                                  args=[G, P, c["neg"][t], []])
+                            if ctx.quick and t % 4: continue
+                            P = pts[t]; ng = c["neg"][t]; d2 = pt(c["dbl"][t])
+                            C.add("add %s D %s %s %s %s inf" % (name, pt(P), pt(G), pt(P), pt(ng)),
+                                  [exp[t + 1], d2, "inf", pt(P)], op="add", curve=name, cap="D", P=P, args=[G, P, ng, []], exc=exc)
+                            C.add("sub %s D %s %s %s %s inf" % (name, pt(P), pt(G), pt(P), pt(ng)),
+                                  [exp[t - 1], "inf", d2, pt(P)], op="sub", curve=name, cap="D", P=P, args=[G, P, ng, []], exc=exc)
                             # (n-1)P = -P, nP = Inf, (n+1)P = P: EcGenWalk!Special / Cycle
-                            C.add("mul %s D %s %x %x %x %x %x %x" % (name, pt(P), 0, 1, 2, n - 1, n, n + 1),
-                                  ["inf", pt(P), pt(c["dbl"][t]), pt(c["neg"][t]), "inf", pt(P)], op="mul", curve=name,
-                                  cap="D", P=P, args=[0, 1, 2, n - 1, n, n + 1])
+                            sk = [0, 1, 2, n - 1, n, n + 1]
+                            C.add("mul %s D %s %s" % (name, pt(P), hexs(sk)), ["inf", pt(P), d2, pt(ng), "inf", pt(P)],
+                                  op="mul", curve=name, cap="D", P=P, args=sk, exc=exc)
                         for t, rows in enumerate(c["dbln"]):
                             for j, r in enumerate(rows):
                                 for kind in "ap":
                                     C.add("dbln %s D %s %d %s" % (name, kind, j + 1, pt(pts[t])), [pt(r)], op="dbln_" + kind,
-                                          curve=name, cap="D", P=pts[t], args=[j + 1])
+                                          curve=name, cap="D", P=pts[t], args=[j + 1], exc=exc)
     return C
 
 # ------------------------------------------------------------------ keys
@@ -374,41 +368,52 @@ def check_curve_tables(exe, C, cfg):
             raise common.Infra("curve tables differ: %s m/h" % n)
     return None
 
-HEAVY_UNK = lambda cfg: eff(cfg)["unk_eff"] in TABLE_ALGOS and eff(cfg)["unkw_eff"] >= 8
+def heavy_unk(cfg):
+    e = eff(cfg); return e["unk_eff"] in TABLE_ALGOS and e["unkw_eff"] >= 8
 
-def run_build(ctx, cfg, exe, C, rng_seed):
-    """-> (failures [(key, detail, replay)], stats)"""
-    fails = []; stats = {"config": cfg_name(cfg), "evaluations": 0, "rows": 0, "skipped_rows": 0, "ubsan": []}
-    bad = check_curve_tables(exe, C, cfg)
-    if bad:
-        fails.append(("curve_from_str:%s:fails" % FXP[cfg["fxp"]], "loading a synthetic curve failed: %s" % bad,
-                      {"config": cfg_defs(cfg), "info": str(bad)}))
-        return fails, stats
-    rng = random.Random(rng_seed)
-    # group lines by op so that a crashing op does not stop the others; very slow selections run a seeded sample
+def select_rows(ctx, cfg, bi, C, rng):
+    """which rows this build runs.  quick: the suite's configuration (bi = 0) runs everything, the other builds one
+    8-bit curve each (rotating), E13, and E16M3 when the digit size lets the comb/window code see its scalars.
+    thorough: everything.  Selections that build a 2^w-point table per unknown-point multiplication (w >= 8) sample
+    the rows that use it."""
+    e = eff(cfg)
+    if ctx.quick and bi > 0:
+        one = TOY8[(bi - 1) % 4]
+        allowed = {one, "E13"} | {a for a, b in ALIAS.items() if b == one}
+        if cfg["digit"] <= 16: allowed.add("E16M3")
+    else:
+        allowed = None
+    sel = []
+    for i, m in enumerate(C.meta):
+        if allowed is not None and m["curve"] not in allowed: continue
+        if heavy_unk(cfg) and (m["op"] == "mul" or (m["op"] == "twinbp" and e["twin_eff"] == 1)):
+            if rng.random() > 0.05 and not (m["exc"] and rng.random() < 0.3): continue
+        sel.append(i)
+    return sel
+
+MAX_PER_KEY = 3
+def run_rows(cfg, exe, C, sel, fails, stats, per_key):
     by_op = {}
-    for i, m in enumerate(C.meta): by_op.setdefault(m["op"], []).append(i)
+    for i in sel: by_op.setdefault(C.meta[i]["op"], []).append(i)
     for op, idxs in sorted(by_op.items()):
-        sel = idxs
-        if op in ("mul", "twinbp") and HEAVY_UNK(cfg) and (op == "mul" or eff(cfg)["twin_eff"] == 1):
-            sel = [i for i in idxs if rng.random() < 0.06]           # 2^w-point table per call: sample the rows
-        if op == "twin" and not cfg["proj"] and False: pass
-        stats["skipped_rows"] += len(idxs) - len(sel)
         t0 = time.time()
-        res, err = drive(exe, [C.lines[i] for i in sel], timeout=1500)
+        res, err = drive(exe, [C.lines[i] for i in idxs], timeout=1500)
         for e_ in set(re.findall(r"(\S+?:\d+):\d+: runtime error: ([^\n]{0,80})", err)):
-            s = "%s %s" % (os.path.basename(e_[0]), re.sub(r"0x[0-9a-f]+", "X", e_[1]))
-            if s not in stats["ubsan"]: stats["ubsan"].append(s)
-        for i, r in zip(sel, res):
+            u = "%s %s" % (os.path.basename(e_[0]), re.sub(r"0x[0-9a-f]+", "X", e_[1]))
+            if u not in stats["ubsan"]: stats["ubsan"].append(u)
+        for i, r in zip(idxs, res):
             m = C.meta[i]; exp = C.expect[i]
             if r is None:
                 stats["skipped_rows"] += 1; continue
             stats["rows"] += 1
             if isinstance(r, dict):
                 k = r["crash"]
-                key = fail_key(cfg, m, 0 if len(exp) == 1 else min(1, len(exp) - 1), "crash")
-                fails.append((key, "config %s\ncase %s\n%s: %s %s\n%s" % (cfg_name(cfg), C.lines[i][:300], k[0], k[1], k[2], r["raw"][-1500:]),
-                              {"config": cfg_defs(cfg), "line": C.lines[i][:2000], "crash": list(k)}))
+                j = next((t for t in range(len(exp)) if input_class(m, t) == "generic"), 0)
+                key = fail_key(cfg, m, j, "crash")
+                per_key[key] = per_key.get(key, 0) + 1
+                if per_key[key] <= MAX_PER_KEY:
+                    fails.append((key, "config %s\ncase %s\n%s: %s %s\n%s" % (cfg_name(cfg), C.lines[i][:300], k[0], k[1], k[2], r["raw"][-1500:]),
+                                  {"config": cfg_defs(cfg), "line": C.lines[i][:2000], "crash": list(k)}))
                 continue
             if len(r) != len(exp):
                 raise common.Infra("driver answered %d results for %d expected: %s" % (len(r), len(exp), C.lines[i][:200]))
@@ -421,10 +426,34 @@ def run_build(ctx, cfg, exe, C, rng_seed):
                 key = fail_key(cfg, m, j, kind)
                 if key in seen: continue
                 seen.add(key)
-                fails.append((key, "config %s\ncase: %s ... operand #%d (%s)\nexpected %s\ngot      %s" %
-                              (cfg_name(cfg), C.lines[i][:120], j, str(m["args"][j])[:60] if j < len(m["args"]) else "", x, g),
-                              {"config": cfg_defs(cfg), "line": C.lines[i][:4000], "index": j, "expected": x, "got": g}))
-        stats.setdefault("op_wall_s", {})[op] = round(time.time() - t0, 1)
+                per_key[key] = per_key.get(key, 0) + 1
+                if per_key[key] <= MAX_PER_KEY:
+                    fails.append((key, "config %s\ncase: %s ... operand #%d (%s)\nexpected %s\ngot      %s" %
+                                  (cfg_name(cfg), C.lines[i][:120], j, str(m["args"][j])[:60] if j < len(m["args"]) else "", x, g),
+                                  {"config": cfg_defs(cfg), "line": C.lines[i][:4000], "index": j, "expected": x, "got": g}))
+        stats["op_wall_s"][op] = round(stats["op_wall_s"].get(op, 0) + time.time() - t0, 1)
+
+def run_build(ctx, cfg, bi, exes, C):
+    """-> (failures [(key, detail, replay)], stats)"""
+    fails = []
+    stats = {"config": cfg_name(cfg), "evaluations": 0, "rows": 0, "skipped_rows": 0, "ubsan": [], "op_wall_s": {}, "asan_rows": 0}
+    for exe in exes.values():
+        bad = check_curve_tables(exe, C, cfg)
+        if bad:
+            fails.append(("curve_from_str:fxp=%s:fails" % FXP[cfg["fxp"]],
+                          "config %s: loading a synthetic curve through ecdsa_curve_from_str failed: %s" % (cfg_name(cfg), str(bad)[:1500]),
+                          {"config": cfg_defs(cfg), "info": str(bad)[:3000]}))
+            return fails, stats
+    rng = random.Random("%s/%s" % (ctx.seed, cfg_name(cfg)))
+    sel = select_rows(ctx, cfg, bi, C, rng)
+    per_key = {}
+    run_rows(cfg, exes["fast"], C, sel, fails, stats, per_key)
+    share = 0.04 if ctx.quick else 0.06
+    asel = [i for i in sel if rng.random() < (share * (4 if C.meta[i]["exc"] else 1))]
+    n0 = stats["rows"]
+    run_rows(cfg, exes["asan"], C, asel, fails, stats, per_key)
+    stats["asan_rows"] = stats["rows"] - n0
+    stats["fail_counts"] = per_key
     return fails, stats
 
 # ------------------------------------------------------------------ mode C: built-in curves
@@ -500,7 +529,7 @@ def modec(ctx, cfg, exe, names, rng, nscal):
             l2.append(("ladder %s D %s %s" % (n, G, hx(k)), n, "lad", G, k))
             l2.append(("ladder %s D %s %s" % (n, P1, hx(l)), n, "lad", P1, l))
             l2.append(("twinbp %s M %s %s %s" % (n, P1, hx(l), hx(k)), n, "twinbp", (G, k), (P1, l)))
-            l2.append(("twin %s D %s %s %s %s" % (n, G, hx(k), P1, hx(l)), n, "twin", (G, k), (P1, l)))
+            l2.append(("twin %s D %s %s %s %s" % (n, G, P1, hx(l), hx(k)), n, "twin", (G, k), (P1, l)))
     r2, _ = drive(exe, [x[0] for x in l2], timeout=900)
     for x, r in zip(l2, r2):
         if x[2] in ("lad", "bp", "unk"): got[(x[1], x[2], x[3], x[4])] = r
@@ -609,10 +638,13 @@ def validate_events(ctx, cfg, ev, evmeta, d, tag):
     return fails, nval
 
 # ------------------------------------------------------------------ the affine + INTER selection
+def build_pair(cfg, d):
+    return {"fast": build(cfg, d, "fast"), "asan": build(cfg, d, "asan")}
+
 def probe_affine_inter(ctx, d):
     cfg = dict(SUITE, proj=0, mix=0, rdbl=0, twin=3)
     try:
-        exe = build(cfg, d)
+        return cfg, build_pair(cfg, d)
     except common.Infra as e:
         msg = str(e)
         if "ec_point_affine_inter_twin_mult" in msg and ("undefined reference" in msg or "undefined symbol" in msg):
@@ -622,7 +654,19 @@ def probe_affine_inter(ctx, d):
                      {"config": cfg_defs(cfg)})
             return None
         raise
-    return cfg, exe
+
+def quick_configs(rng):
+    """the suite's configuration + 4 seed-chosen ones; always one affine, one with 8-bit digits (so that the comb /
+    window code really runs on the 8-bit curves instead of the 'dont know how to mult' fall-back) and one JOINT"""
+    cfgs = [dict(SUITE)]
+    forced = [dict(proj=0, twin=rng.choice([0, 1, 2])), dict(digit=8, proj=1), dict(twin=2), {}]
+    for fz in forced:
+        for _ in range(2000):
+            c = random_cfg(rng); c.update(fz)
+            if eff(c)["unk_eff"] in TABLE_ALGOS and eff(c)["unkw_eff"] >= 8: continue      # 2^w table per call: thorough tier
+            if cfg_valid(c) and c not in cfgs:
+                cfgs.append(c); break
+    return cfgs
 
 # ------------------------------------------------------------------ main
 def run(ctx):
@@ -633,95 +677,83 @@ def run(ctx):
     rc, out = common.sh(["javac", "-cp", common.TLAJAR, "-d", ws, os.path.join(common.VERIF, "specs/num/BigNatX.java")], timeout=180)
     accel = rc == 0
     if not accel: ctx.log("javac failed for BigNatX; EcTrace falls back to the pure TLA+ product (slow):", out[-300:])
-    # configurations
     if ctx.quick:
-        cfgs = [dict(SUITE)]
-        # the four extra ones: seed-chosen, but always one affine, one with 8-bit digits (so that comb / window code
-        # runs on the 8-bit curves instead of the "dont know how to mult" fall-back) and one JOINT
-        forced = [dict(proj=0, twin=rng.choice([0, 1, 2])), dict(digit=8), dict(twin=2), {}]
-        for fz in forced:
-            for _ in range(1000):
-                c = random_cfg(rng); c.update(fz)
-                if c["unk"] in TABLE_ALGOS and c["unkw"] > c["fxpw"]: continue    # table overflow: thorough tier / dedicated below
-                if c["unk"] == 5 and c["fxpw"] >= 8: continue                      # 2^w table per call: too slow for quick
-                if cfg_valid(c) and c not in cfgs: cfgs.append(c); break
-        uncovered = None
+        cfgs = quick_configs(rng); uncovered = None
     else:
         cfgs, uncovered = pairwise(rng, must=[dict(SUITE)])
-    # one configuration where the unknown-point window is wider than the fixed-point window
-    wide = dict(SUITE, fxp=3, fxpw=2, unk=3, unkw=3, twin=1)
-    ctx.log("%d configurations%s" % (len(cfgs) + 1, "" if uncovered is None else " (pairwise array, %d feasible pairs left uncovered)" % uncovered))
-    # builds in the background (<= 3 at a time) while TLC produces the corpus (<= 4 single-worker runs)
-    bex = ThreadPoolExecutor(max_workers=3 if ctx.quick else 4)
-    bfut = [(c, bex.submit(build, c, d)) for c in cfgs + [wide]]
+    ctx.log("%d configurations%s" % (len(cfgs), "" if uncovered is None else " (pairwise array, %d feasible pairs left uncovered)" % uncovered))
+    # builds in the background while TLC produces the corpus (<= 4 single-worker TLC runs)
+    bex = ThreadPoolExecutor(max_workers=2 if ctx.quick else 3)
+    bfut = [(c, bex.submit(build_pair, c, d)) for c in cfgs]
     pfut = bex.submit(probe_affine_inter, ctx, d)
     t0 = time.time()
     cases = generate_corpus(ctx, rng)
     ctx.log("corpus generated by TLC in %.0fs: %s" % (time.time() - t0, {("%s/%s" % k): len(v) for k, v in cases.items()}))
     C = make_corpus(ctx, cases, rng)
-    ctx.log("%d driver rows, %d expected points per build" % (len(C.lines), sum(len(e) for e in C.expect)))
+    ctx.log("%d driver rows, %d expected points (whole corpus)" % (len(C.lines), sum(len(e) for e in C.expect)))
     builds = [(c, f.result()) for c, f in bfut]
     ai = pfut.result()
     if ai: builds.append(ai)
-    # mode B on every build
+    bex.shutdown()
+    # ---- mode B on every build
     allstats = []
-    def job(cb):
-        c, exe = cb
-        return c, run_build(ctx, c, exe, C, ctx.seed)
+    def job(a):
+        bi, (c, exes) = a
+        return c, run_build(ctx, c, bi, exes, C)
     with ThreadPoolExecutor(max_workers=4) as ex:
-        for c, (fails, st) in ex.map(job, builds):
+        for c, (fails, st) in ex.map(job, list(enumerate(builds))):
             allstats.append(st)
             for f in fails: ctx.fail(*f)
             ctx.add(evaluations=st["evaluations"])
-            ctx.log("build %-70s rows=%d results=%d skipped=%d fails=%d %s" % (st["config"], st["rows"], st["evaluations"],
-                    st["skipped_rows"], len(fails), st.get("op_wall_s")))
-    # mode C
-    res, _ = drive(builds[0][1], ["curves"])
+            ctx.log("build %-66s rows=%d results=%d fails=%s %s" % (st["config"], st["rows"], st["evaluations"],
+                    st.get("fail_counts") or len(fails), st.get("op_wall_s")))
+    # ---- mode C: built-in curves
+    res, _ = drive(builds[0][1]["fast"], ["curves"])
     names = res[0].split()[1:] if isinstance(res[0], str) else []
     if len(names) != 32:
         raise common.Infra("expected 32 built-in curves, driver lists %d" % len(names))
-    nval_total = 0; cstats = []
     plan = []
-    for bi, (c, exe) in enumerate(builds):
+    for bi, (c, exes) in enumerate(builds):
         if bi == 0: sub = names                                     # the suite's configuration: all 32 curves
         else:
-            k = 3 if ctx.quick else 8
-            sub = [names[(bi * k + j * 5) % 32] for j in range(k)]
-            sub = sorted(set(sub), key=names.index)
-        plan.append((c, exe, sub))
+            k = 3 if ctx.quick else 6
+            sub = sorted({names[(bi * 7 + j * 11) % 32] for j in range(k)}, key=names.index)
+        plan.append((c, exes["asan"] if (bi == 0 or not ctx.quick) else exes["fast"], sub))
     def cjob(p):
         c, exe, sub = p
-        r = random.Random("%s/%s" % (ctx.seed, cfg_name(c)))
+        r = random.Random("%s/%s/C" % (ctx.seed, cfg_name(c)))
         return p, modec(ctx, c, exe, sub, r, 1 if ctx.quick else 2)
     with ThreadPoolExecutor(max_workers=4) as ex:
         modec_out = list(ex.map(cjob, plan))
+    nval_total = 0; cstats = []
     for bi, ((c, exe, sub), (fails, ev, evmeta, st)) in enumerate(modec_out):
         for f in fails: ctx.fail(*f)
         vf, nval = validate_events(ctx, c, ev, evmeta, d, "b%d" % bi)
         for f in vf: ctx.fail(*f)
         nval_total += nval; st["validated"] = nval; cstats.append(st)
         ctx.log("mode C %-66s curves=%d events=%d fails=%d" % (st["config"], st["curves"], nval, len(fails) + len(vf)))
-    # evidence
+    # ---- evidence
     ctx.add(traces_validated_against_impl=nval_total)
-    ctx.add(distinct_nontrivial=sum(1 for e, m in zip(C.expect, C.meta) for x in e if x != "inf"))
-    ctx.cov["configurations"] = [s["config"] for s in allstats]
+    ctx.add(distinct_nontrivial=sum(1 for e in C.expect for x in e if x != "inf"))
+    ctx.cov["configurations"] = [s_["config"] for s_ in allstats]
     ctx.cov["per_build"] = allstats
-    ctx.cov["mode_c"] = [{k: v for k, v in s.items() if k != "validate"} for s in cstats]
-    ctx.cov["ec_curve_validate_zero_for"] = sorted({n for s in cstats for n, v in s["validate"].items() if v == 0})
+    ctx.cov["mode_c"] = [{k: v for k, v in s_.items() if k != "validate"} for s_ in cstats]
+    ctx.cov["ec_curve_validate_zero_for"] = sorted({n for s_ in cstats for n, v in s_["validate"].items() if v == 0})
     ctx.cov["bignat_accelerator"] = accel
-    ub = sorted({u for s in allstats for u in s["ubsan"]})
+    ub = sorted({u for s_ in allstats for u in s_["ubsan"]})
     if ub: ctx.cov["sanitizer_diagnostics_outside_this_property"] = ub[:20]
     if uncovered is not None: ctx.cov["pairwise_pairs_uncovered"] = uncovered
     ctx.cov["rule"] = ("mode B: every point of every row that TLC emitted (whole groups of the 8-bit curves pairwise; the 13/16-bit "
-                       "groups point-wise) is one evaluation per build; non-trivial = expected point is finite; "
+                       "groups point-wise) is one evaluation per build that runs the row; non-trivial = expected point is finite; "
                        "mode C: one event per library call on a built-in curve, decided by TLC (EcTrace)")
-    s0 = C.meta[len(C.meta) // 3]
-    ctx.add(samples=[{"line": C.lines[len(C.lines) // 3][:160], "expect_first": C.expect[len(C.lines) // 3][:3]}])
+    mid = len(C.lines) // 3
+    ctx.add(samples=[{"line": C.lines[mid][:160], "expect_first": C.expect[mid][:3]}])
     ctx.assumptions += [
         "specs/ec/EcGroup.tla (textbook affine law) is the oracle; EcCurves/EcCurvesCount ASSUMEs re-derive every fact about the synthetic curves",
-        "built-in curves: results are decided by the division-free relations of EcRel over BigNat (specs/num, C01 author); the "
-        "java.math.BigInteger product XMulMod is checked against the TLA+ product on operands of every trace (OverrideOk)",
+        "built-in curves: results are decided by the division-free relations of EcRel over BigNat (specs/num); the java.math.BigInteger "
+        "product XMulMod is checked against the TLA+ product on operands of every trace (OverrideOk)",
         "scalars are initialised with EC_CURVE_CALC_BITS_DBL bits like every caller in ecdsa.h; points with the same (cap D) or with curve->m bits (cap M)",
-        "stack is filled with 0xA5 before each call so that reads of uninitialised locals give reproducible results",
+        "32 KiB of stack are filled with 0xA5 before each call so that reads of uninitialised locals give reproducible results",
+        "each configuration is built twice: -O2 without sanitizers (whole selection of rows) and -O1 ASan+UBSan (seeded sample of them)",
         "dbl_n with n = 0 is not exercised (no caller uses it)",
     ]
